@@ -407,6 +407,51 @@ Definition number_agrees (text csv : bytes) : bool :=
   | _, _ => beq text csv        (* NaN / Inf: printed alike *)
   end.
 
+(** deltas and p-values: "describe the same deltas, p-values" - the two renderings
+    need not spell them alike. Two decimal numbers (optionally signed, with the
+    given suffix) agree when they differ by at most half a unit of the last
+    digit of the less precise one; anything else ("~", "?", "n=6+6") must be
+    the same text. *)
+Definition suffixed_number (suffix l : bytes) : option (Q * Q) :=
+  match parse_mant l with
+  | Some (neg, m, nfrac, rest) =>
+      if beq rest suffix
+      then let u := pow10 (- Z.of_nat nfrac) in Some (signed neg (Qmult (inject_Z m) u), Qmult (1 # 2) u)
+      else None
+  | None => None
+  end.
+Definition approx_agrees (suffix a b : bytes) : bool :=
+  match suffixed_number suffix a, suffixed_number suffix b with
+  | Some (x, hx), Some (y, hy) => Qle_bool (Qabs (Qminus x y)) (if Qle_bool hx hy then hy else hx)
+  | _, _ => beq a b
+  end.
+Definition delta_agrees (text csv : bytes) : bool := approx_agrees (bs "%") text csv.
+(** one "key=value" token of "p=0.002 n=6": the same key; values as numbers or as text *)
+Definition kv_agrees (a b : bytes) : bool :=
+  let '(ka, va) := span_while (fun c => negb (Byte.eqb c x3d)) a in
+  let '(kb, vb) := span_while (fun c => negb (Byte.eqb c x3d)) b in
+  match va, vb with
+  | _ :: va', _ :: vb' => beq ka kb && approx_agrees [] va' vb'
+  | _, _ => beq a b
+  end.
+Definition split_sp (b : bytes) : list bytes :=
+  let fix go (cur b : bytes) : list bytes :=
+    match b with
+    | [] => match cur with [] => [] | _ => [rev cur] end
+    | x :: r => if Byte.eqb x sp then match cur with [] => go [] r | _ => rev cur :: go [] r end
+                else go (x :: cur) r
+    end in go [] b.
+Definition unparen (b : bytes) : bytes :=
+  match b with
+  | x :: r => if Byte.eqb x x28 then match rev r with y :: r' => if Byte.eqb y x29 then rev r' else b | [] => b end else b
+  | [] => []
+  end.
+(** the text shows "(p=... n=...)", the CSV "p=... n=..." *)
+Definition pn_agrees (text csv : bytes) : bool :=
+  let tt := split_sp (unparen text) in
+  let ct := split_sp csv in
+  (length tt =? length ct) && forallb (fun '(a, b) => kv_agrees a b) (combine tt ct).
+
 (** ** one table *)
 Definition field (rec : list bytes) (i : nat) : bytes := nth i rec [].
 
@@ -443,6 +488,9 @@ Fixpoint find_sub (l pat : list rune) (from n : nat) : option nat :=   (* first 
   | S n' => if r_eqb (firstn (length pat) (skipn from l)) pat then Some from else find_sub l pat (S from) n'
   end.
 
+Fixpoint count_prefix' {A} (p : A -> bool) (l : list A) : nat :=
+  match l with x :: r => if p x then S (count_prefix' p r) else 0 | [] => 0 end.
+
 (** group [e] of the table: (lo, split, hi) rune offsets taken from the unit header line *)
 Definition group_bounds (ul : list rune) (B : list nat) (e : nat) : nat * nat * nat :=
   let lo := S (nth e B 0) in
@@ -451,6 +499,19 @@ Definition group_bounds (ul : list rune) (B : list nat) (e : nat) : nat * nat * 
   | Some p => (lo, p - 1, hi)
   | None => (lo, hi, hi)
   end.
+
+(** the same split read without knowing how the delta columns are headed: the
+    unit is one token (a benchfmt unit has no blank in it); what follows it
+    inside the group is the header of the delta columns *)
+Definition group_bounds_tok (ul : list rune) (B : list nat) (e : nat) : nat * nat * nat :=
+  let lo := S (nth e B 0) in
+  let hi := nth (S e) B 0 in
+  let seg := sub ul lo hi in
+  let issp := fun r : rune => beq r rsp in
+  let a := count_prefix' issp seg in
+  let b := count_prefix' (fun r => negb (issp r)) (skipn a seg) in
+  let c := count_prefix' issp (skipn (a + b) seg) in
+  if a + b + c <? length seg then (lo, lo + a + b + c - 1, hi) else (lo, hi, hi).
 
 (** header cell of line [hl] that covers the group whose bar is at [b] *)
 Definition header_value (hl : list rune) (b : nat) : bytes :=
@@ -474,8 +535,8 @@ Definition data_cell_ok foot ws (l : list rune) (rec : list bytes) (srow e : nat
   && (if e =? 0 then knil dt
       else (match body dt with
             | [] => knil (field rec (cs + 2)) && knil (field rec (cs + 3))
-            | d :: rest => beq (flat d) (field rec (cs + 2))
-                           && beq (join_sp (map flat rest)) (bs "(" ++ field rec (cs + 3) ++ bs ")")
+            | d :: rest => delta_agrees (flat d) (field rec (cs + 2))
+                           && pn_agrees (join_sp (map flat rest)) (field rec (cs + 3))
             end)
            && notes_agree foot ws (notes dt) (sheet_col (cs + 2)) srow).
 
@@ -493,7 +554,7 @@ Definition summary_cell_ok foot ws (l : list rune) (rec : list bytes) (srow e : 
   && (if e =? 0 then knil (body dt)
       else (match body dt with
             | [] => knil (field rec (cs + 2))
-            | [d] => beq (flat d) (field rec (cs + 2))
+            | [d] => delta_agrees (flat d) (field rec (cs + 2))
             | _ => false
             end) && knil (field rec (cs + 3)))
   && notes_agree foot ws (notes ct ++ notes dt) (sheet_col cs) srow.
@@ -509,11 +570,16 @@ Fixpoint count_prefix {A} (p : A -> bool) (l : list A) : nat :=
 Definition ends_bar (l : list rune) : bool := match rev l with r :: _ => beq r rbar | [] => false end.
 
 (** the text ToText wrote and the records + warnings ToCSV wrote describe the
-    same table: column headers, unit row, row labels, per (row, logical column)
-    centre (to the printed precision), range, delta, p/n and warning set; the
-    summary row (when the text shows it: >= 2 rows) incl. where the geomean
-    delta sits; every CSV warning refers to a cell of the table *)
-Definition text_csv_ok (start : nat) (text : bytes) (recs : list (list bytes)) (warns : bytes) : bool :=
+    same table: every CSV record has its text line and vice versa - column
+    headers, unit row (unit; the delta columns headed alike in both; what the
+    CSV calls its range and p columns is not the text's business), row labels,
+    per (row, logical column) centre (to the printed precision), range, delta,
+    p/n and warning set, the summary row incl. where the geomean delta sits;
+    every CSV warning refers to a cell of the table.
+    [relax] = the known finding C16_csv_summary_one_row and nothing else: a
+    table with fewer than two rows has a summary record (label, geomean, its
+    warnings) in the CSV that the text does not show. *)
+Definition text_csv_ok_gen (relax : bool) (start : nat) (text : bytes) (recs : list (list bytes)) (warns : bytes) : bool :=
   let rl := map runes (split_nl [] text) in
   let nhdr := count_prefix ends_bar rl in
   let nf := nhdr - 1 in
@@ -521,12 +587,12 @@ Definition text_csv_ok (start : nat) (text : bytes) (recs : list (list bytes)) (
   let B := bars_of ul in
   let n := length B - 1 in
   let nrows := length recs - nhdr - 1 in
-  let has_sum := 1 <? nrows in
+  let has_sum := if relax then 1 <? nrows else true in
   let ntab := nhdr + nrows + (if has_sum then 1 else 0) in
   (1 <=? nhdr) && (1 <=? n) && (nhdr + 1 <=? length recs) && (ntab <=? length rl) &&
   match omap' parse_footer (skipn ntab rl), omap' parse_wline (split_nl [] warns) with
   | Some foot, Some ws =>
-      let G := map (group_bounds ul B) (seq 0 n) in
+      let G := map (group_bounds_tok ul B) (seq 0 n) in
       let ges := combine (seq 0 n) G in
       (* column key headers *)
       forallb (fun f => forallb (fun e =>
@@ -535,10 +601,8 @@ Definition text_csv_ok (start : nat) (text : bytes) (recs : list (list bytes)) (
       && forallb (fun '(e, (lo, mid, hi)) =>
            let rec := nth nf recs [] in
            beq (flat (trim (sub ul lo mid))) (trimb (field rec (csv_start e)))
-           && beq (field rec (csv_start e + 1)) (bs "CI")
-           && (if e =? 0 then true
-               else beq (flat (trim (sub ul mid hi))) (field rec (csv_start e + 2))
-                    && beq (field rec (csv_start e + 2)) (bs "vs base") && beq (field rec (csv_start e + 3)) (bs "P"))) ges
+           && (if e =? 0 then (mid =? hi)
+               else beq (flat (trim (sub ul mid hi))) (field rec (csv_start e + 2)))) ges
       (* data rows *)
       && forallb (fun i =>
            let l := nth (nhdr + i) rl [] in
@@ -546,7 +610,7 @@ Definition text_csv_ok (start : nat) (text : bytes) (recs : list (list bytes)) (
            beq (flat (trim (sub l 0 (nth 0 B 0)))) (trimb (field rec 0))
            && (length rec <=? csv_start n)
            && forallb (fun '(e, g) => data_cell_ok foot ws l rec (start + nhdr + i) e g) ges) (seq 0 nrows)
-      (* summary row, when the text shows it *)
+      (* summary row *)
       && (if has_sum then
             let l := nth (nhdr + nrows) rl [] in
             let rec := nth (nhdr + nrows) recs [] in
@@ -563,3 +627,5 @@ Definition text_csv_ok (start : nat) (text : bytes) (recs : list (list bytes)) (
                       (seq 0 n)) ws
   | _, _ => false
   end.
+
+Definition text_csv_ok := text_csv_ok_gen false.
